@@ -101,12 +101,14 @@ def model_phase(ctx, cfg, rounds):
         for (e, sp, dp, ck) in flows:
             for _k in range(rng.choice([0, 1, 1, 2, 3])):
                 script.insert(rng.randrange(len(script) + 1), e.tcp(sp, dp, rng.getrandbits(32), (ck + 1) & 0xFFFFFFFF, PSH | ACK,
-                                                                     rng.choice([b"", b"x", b"GET / HTTP/1.1\r\n\r\n", b"SSH-2.0-a\r\n"])))
+                                                                     rng.choice([b"", b"x", b"GET / HTTP/1.1\r\n\r\n", b"SSH-2.0-a\r\n",
+                                                                                 # bytes that complete no signature: the flow stays validated all the same
+                                                                                 b"OPTIONS sip:nm SIP/2.0\r\nVia: SIP/2.0/TCP nm\r\n", bytes(rng.randrange(1, 256) | 0x80 for _x in range(40))])))
         # control segments that carry the cookie+1 of a (to be) validated flow, on that flow and from unrelated tuples:
         # only PSH|ACK may create state, and nothing may remove it
         for (e, sp, dp, ck) in flows:
             for _k in range(rng.choice([0, 1, 2])):
-                fl = rng.choice([FIN | ACK, FIN | ACK, RST, ACK, RST | ACK, FIN])
+                fl = rng.choice([FIN | ACK, FIN | ACK, RST, ACK, RST | ACK, FIN, PSH, PSH | FIN, PSH | RST, PSH | 0x20, PSH | SYN])   # PSH without ACK is no data segment
                 src = e if rng.random() < 0.5 else gen.endp(rng, cfg, e.v6)
                 script.insert(rng.randrange(len(script) + 1), src.tcp(sp if src is e else gen.rnd_port(rng), dp, rng.getrandbits(32), (ck + 1) & 0xFFFFFFFF, fl))
         rs = ctx.send_many(script)
